@@ -24,9 +24,9 @@ def load_known(prop_id):
     return [f for f in data.get("findings", []) if f.get("property") == prop_id]
 
 
-def spawn(prop_id, tier, seed, shard, nshards, out, replay=None):
+def spawn(prop_id, tier, seed, shard, nshards, out, replay=None, pyflags=()):
     cmd = [
-        env.PY, "-B", "-m", "vf.worker", prop_id,
+        env.PY, "-B", *pyflags, "-m", "vf.worker", prop_id,
         "--tier", tier, "--seed", str(seed),
         "--shard", str(shard), "--nshards", str(nshards), "--out", str(out),
     ]
@@ -59,7 +59,7 @@ def run(prop_id: str, tier: str, seed: int, replay=None, jobs=None) -> int:
     procs = []
     for s in range(nshards):
         out = work / f"shard{s}.json"
-        p, log = spawn(prop_id, tier, seed, s, nshards, out, replay)
+        p, log = spawn(prop_id, tier, seed, s, nshards, out, replay, prop.worker_pyflags(s))
         procs.append((s, p, log, out))
 
     results, inconclusive = [], []
